@@ -33,14 +33,14 @@ theorem entryStep_target (obj : ScopeObj) (st : PState) (h : isTargetIntf intfNa
   simp only [h, Bool.not_true, Bool.false_eq_true, ↓reduceIte]
   split <;> simp
 
-/-- **T17.1 (selection).** Every entry is an interface declared in the setup file that is named
+/-- **T17.1 (selection).** Every entry is a declared interface type of the setup file that is named
 `Convergen` or was marked — i.e. satisfied `isTargetIntf` when it was visited; entries keep scope
 order. -/
 theorem entries_are_file_interfaces :
     ∀ (objs : List ScopeObj) (acc : List IntfEntry) (st : PState) (res : List IntfEntry) (st' : PState),
-      (∀ e ∈ acc, e.obj.isInterface = true ∧ e.obj.inSetupFile = true) →
+      (∀ e ∈ acc, e.obj.isType = true ∧ e.obj.isInterface = true ∧ e.obj.inSetupFile = true) →
       findConvergenEntries env sc eng file intfName objs acc st = .ok (res, st') →
-      ∀ e ∈ res, e.obj.isInterface = true ∧ e.obj.inSetupFile = true := by
+      ∀ e ∈ res, e.obj.isType = true ∧ e.obj.isInterface = true ∧ e.obj.inSetupFile = true := by
   intro objs
   induction objs with
   | nil =>
@@ -66,7 +66,7 @@ theorem entries_are_file_interfaces :
       · subst he'
         unfold isTargetIntf at ht
         simp only [Bool.and_eq_true] at ht
-        rw [he]; exact ⟨ht.1.1, ht.1.2⟩
+        rw [he]; exact ⟨ht.1.1.1, ht.1.1.2, ht.1.2⟩
 
 /-- the entries are exactly the visited objects that satisfied the rule, in order: the object
 list of the result is a sublist of the scope -/
@@ -114,6 +114,22 @@ theorem other_file_ignored (st : PState) (obj : ScopeObj) (h : obj.inSetupFile =
 theorem non_interface_ignored (st : PState) (obj : ScopeObj) (h : obj.isInterface = false) :
     isTargetIntf intfName st obj = false := by
   unfold isTargetIntf; simp [h]
+
+/-- a package-level variable (or function) whose type is an interface is no interface declaration:
+it is never converted, whatever its name or doc comment says (since the repair of the var-as-converter
+defect) -/
+theorem non_type_ignored (st : PState) (obj : ScopeObj) (h : obj.isType = false) :
+    isTargetIntf intfName st obj = false := by
+  unfold isTargetIntf; simp [h]
+
+/-- … and so it is passed over by the loop: the run goes on as if it were not there -/
+theorem non_type_passed_over (obj : ScopeObj) (rest : List ScopeObj) (acc : List IntfEntry) (st : PState)
+    (h : obj.isType = false) :
+    findConvergenEntries env sc eng file intfName (obj :: rest) acc st =
+      findConvergenEntries env sc eng file intfName rest acc st := by
+  have ht : isTargetIntf intfName st obj = false := non_type_ignored intfName st obj h
+  conv => lhs; unfold findConvergenEntries
+  simp [entryStep, ht]
 
 /-- the `:convergen` marker: `// :convergen` matches, a commented-out or quoted one does not,
 nor does a longer word (`\b`) -/
